@@ -9,6 +9,7 @@ package conc
 
 import (
 	"fmt"
+	"os"
 	"strings"
 	"time"
 
@@ -28,8 +29,22 @@ type System interface {
 	Close()
 }
 
-// Classify maps a yield point to "before" (about to take the lock), "inside" (holding it) or "".
+// Classify maps a yield point to "before" (about to take the lock), "inside" (holding it), "mid"
+// (a point between two separate steps of a request that carries no lock meaning: the goroutine
+// can be parked there) or "" (not used by this tie).
 type Classify func(point string) string
+
+// Opts configures an exploration.
+type Opts struct {
+	N   int
+	Cls Classify
+	// LazyAcquire logs a request's acquire only when it completes. For services whose reads take
+	// no lock and whose writers change the state in their last segment (GCS: GetMeta, validate,
+	// then one store mutation), a read that runs while a writer is parked inside its section
+	// observes the pre-state, i.e. is ordered before that writer; mutual exclusion among writers
+	// is still checked by watching that a second writer does not get inside.
+	LazyAcquire bool
+}
 
 type Run struct {
 	Chosen  []int
@@ -39,6 +54,9 @@ type Run struct {
 	Resp    []string // response per thread ("" = did not finish)
 	Order   [][2]int // (thread, 0=invoke | 1=respond) in real-time order
 	Stalled string
+	// Infeasible: the requested prefix could not be followed (a goroutine counted as waiting in
+	// the run the prefix came from moved this time, or vice versa); the run is discarded.
+	Infeasible bool
 }
 
 const (
@@ -47,6 +65,7 @@ const (
 	stInside
 	stBlocked
 	stDone
+	stMid
 )
 
 type runner struct {
@@ -60,6 +79,50 @@ type runner struct {
 	tmo     time.Duration
 	blocked int // index of the one goroutine allowed to sit blocked, -1 = none
 	pending []sched.Event
+	lazy    bool
+	inside  []bool // the goroutine has passed an "inside" point (it holds its lock)
+	atMid   []bool // the goroutine is parked at a "mid" point (it may hold a store-level lock there)
+	workIdx []int        // index of the already logged `work` line of a goroutine that has released its lock (-1 = none)
+	soft    map[int]bool // goroutines that did not report after being let go while another one was parked at a mid point
+}
+
+// midParkedOther: some other goroutine is parked between two steps of a store operation; the
+// store may serialise its operations, so a goroutine let go now may have to wait for that one.
+func (r *runner) midParkedOther(i int) bool {
+	for j := 0; j < r.n; j++ {
+		if j != i && r.atMid[j] {
+			return true
+		}
+	}
+	return false
+}
+
+// softAwait waits briefly for goroutine i; if nothing comes it is taken to be waiting for a
+// goroutine parked at a mid point (not a stall: it is collected once that one moves).
+func (r *runner) softAwait(i int) bool {
+	for {
+		ev, ok := r.next(25 * time.Millisecond)
+		if !ok {
+			r.soft[i] = true
+			r.st[i] = stBlocked
+			return true
+		}
+		r.handle(ev)
+		if ev.Thread == i && (ev.Kind != "yield" || r.cls(ev.Point) != "") {
+			return true
+		}
+	}
+}
+
+// collectSoft picks up goroutines that were waiting for a mid-parked one, after something moved.
+func (r *runner) collectSoft() {
+	for len(r.soft) > 0 {
+		ev, ok := r.next(25 * time.Millisecond)
+		if !ok {
+			return
+		}
+		r.handle(ev)
+	}
 }
 
 // next returns the next event in an order consistent with the lock: when a goroutine reports that
@@ -77,10 +140,10 @@ func (r *runner) next(d time.Duration) (sched.Event, bool) {
 		return ev, false
 	}
 	entering := (ev.Kind == "yield" && r.cls(ev.Point) == "inside" && r.st[ev.Thread] != stInside) || ev.Kind == "done" && r.st[ev.Thread] != stInside
-	if key := r.sys.LockKey(ev.Thread); entering && key != "" {
+	if key := r.sys.LockKey(ev.Thread); entering && key != "" && r.workIdx[ev.Thread] < 0 {
 		if h, held := r.holder[key]; held && h != ev.Thread {
 			if ev2, ok2 := r.s.Wait(150 * time.Millisecond); ok2 {
-				if ev2.Thread == h && ev2.Kind != "yield" {
+				if ev2.Thread == h && (ev2.Kind != "yield" || r.cls(ev2.Point) == "after") {
 					r.pending = append(r.pending, ev)
 					return ev2, true
 				}
@@ -98,7 +161,15 @@ func (r *runner) log(i int, act, impl string) {
 
 func (r *runner) finish(i int, resp string, viaLock bool) {
 	r.run.Resp[i] = resp
-	if !viaLock {
+	if r.workIdx[i] >= 0 {
+		// the request took effect when it released its lock; only now is its response known
+		r.run.Impl[r.workIdx[i]] = "ok " + resp
+		r.log(i, "respond", "ok")
+		r.run.Order = append(r.run.Order, [2]int{i, 1})
+		r.st[i] = stDone
+		return
+	}
+	if !viaLock || r.lazy {
 		r.log(i, "acquire", "ok")
 	}
 	r.log(i, "work", "ok "+resp)
@@ -108,19 +179,57 @@ func (r *runner) finish(i int, resp string, viaLock bool) {
 	r.st[i] = stDone
 }
 
+// release: goroutine i no longer holds key; if the bookkeeping already saw another goroutine inside
+// (its event overtook this one) that one is the holder now.
+func (r *runner) release(i int, key string) {
+	if h, ok := r.holder[key]; ok && h == i {
+		delete(r.holder, key)
+		for j := 0; j < r.n; j++ {
+			if j != i && r.inside[j] && r.sys.LockKey(j) == key && key != "" {
+				r.holder[key] = j
+			}
+		}
+	}
+}
+
 // handle processes one event of thread i.
 func (r *runner) handle(ev sched.Event) {
+	if os.Getenv("VERIF_CONC_DEBUG") == "2" {
+		fmt.Fprintf(os.Stderr, "  %v event %v | st=%v holder=%v blocked=%d\n", time.Now().Format("05.000"), ev, r.st, r.holder, r.blocked)
+	}
 	i := ev.Thread
 	key := r.sys.LockKey(i)
+	delete(r.soft, i)
+	r.atMid[i] = ev.Kind == "yield" && r.cls(ev.Point) == "mid"
 	switch ev.Kind {
 	case "yield":
 		switch r.cls(ev.Point) {
 		case "before":
 			r.st[i] = stBefore
+		case "after":
+			// the lock has been released: this is where the request is ordered
+			if r.lazy {
+				r.log(i, "acquire", "ok")
+			}
+			r.workIdx[i] = len(r.run.Lines)
+			r.log(i, "work", "ok ?")
+			r.log(i, "release", "ok")
+			r.inside[i] = false
+			r.release(i, key)
+			r.st[i] = stMid
+		case "mid":
+			if !r.inside[i] {
+				r.st[i] = stMid
+			} else {
+				r.st[i] = stInside
+			}
 		case "inside":
 			if r.st[i] != stInside {
-				r.log(i, "acquire", "ok")
+				if !r.lazy {
+					r.log(i, "acquire", "ok")
+				}
 				r.st[i] = stInside
+				r.inside[i] = true
 				if _, held := r.holder[key]; !held || key == "" {
 					r.holder[key] = i
 				}
@@ -130,15 +239,17 @@ func (r *runner) handle(ev sched.Event) {
 			r.s.Resume(i)
 		}
 	case "done", "panic":
-		was := r.st[i]
+		was := stNew
+		if r.inside[i] {
+			was = stInside
+		}
 		resp := ev.Val
 		if ev.Kind == "panic" {
 			resp = "panic: " + ev.Val
 		}
 		r.finish(i, resp, was == stInside)
-		if h, ok := r.holder[key]; ok && h == i {
-			delete(r.holder, key)
-		}
+		r.inside[i] = false
+		r.release(i, key)
 	}
 	if r.blocked == i && r.st[i] != stBlocked {
 		r.blocked = -1
@@ -190,7 +301,7 @@ func (r *runner) enabled() []int {
 				continue // at most one goroutine is kept blocked (keeps runs deterministic)
 			}
 			out = append(out, i)
-		case stInside:
+		case stInside, stMid:
 			out = append(out, i)
 		}
 	}
@@ -210,6 +321,9 @@ func (r *runner) step(i int) bool {
 			r.expectBlocked(i)
 			return true
 		}
+		if r.midParkedOther(i) {
+			return r.softAwait(i)
+		}
 		return r.await(i)
 	case stBefore:
 		r.s.Resume(i)
@@ -217,13 +331,37 @@ func (r *runner) step(i int) bool {
 			r.expectBlocked(i)
 			return true
 		}
+		if r.midParkedOther(i) {
+			return r.softAwait(i)
+		}
+		return r.await(i)
+	case stMid:
+		defer r.collectSoft()
+		if !r.inside[i] && held && r.workIdx[i] < 0 {
+			// parked before it took the lock (e.g. inside a helper read): may block now
+			r.s.Resume(i)
+			r.expectBlocked(i)
+			return true
+		}
+		r.s.Resume(i)
+		if r.midParkedOther(i) {
+			return r.softAwait(i)
+		}
 		return r.await(i)
 	case stInside:
+		wasMid := r.atMid[i]
 		r.s.Resume(i)
-		if !r.await(i) {
+		if r.midParkedOther(i) {
+			if !r.softAwait(i) {
+				return false
+			}
+		} else if !r.await(i) {
 			return false
 		}
-		if r.st[i] == stDone && r.blocked >= 0 && r.sys.LockKey(r.blocked) == key {
+		if wasMid {
+			r.collectSoft()
+		}
+		if _, stillHeld := r.holder[key]; !stillHeld && r.blocked >= 0 && r.blocked != i && r.sys.LockKey(r.blocked) == key {
 			b := r.blocked
 			return r.await(b)
 		}
@@ -235,7 +373,7 @@ func (r *runner) step(i int) bool {
 func (r *runner) drain() {
 	for k := 0; k < 200 && r.s.Live() > 0; k++ {
 		for i := 0; i < r.n; i++ {
-			if r.st[i] == stBefore || r.st[i] == stInside {
+			if r.st[i] == stBefore || r.st[i] == stInside || r.st[i] == stMid {
 				r.s.Resume(i)
 				r.st[i] = stBlocked
 			}
@@ -250,15 +388,32 @@ func (r *runner) drain() {
 }
 
 // RunOne executes one interleaving: follow prefix, then always the first enabled goroutine.
-func RunOne(mk func(y func(point string)) System, n int, cls Classify, prefix []int) *Run {
+func RunOne(mk func(y func(point string)) System, o Opts, prefix []int) *Run {
+	t0 := time.Now()
 	s := sched.New()
+	n, cls := o.N, o.Cls
 	sys := mk(func(point string) { s.Yield(point, "") })
 	r := &runner{sys: sys, s: s, cls: cls, n: n, st: make([]int, n), holder: map[string]int{}, tmo: 4 * time.Second, blocked: -1,
-		run: &Run{Resp: make([]string, n)}}
+		lazy: o.LazyAcquire, inside: make([]bool, n), atMid: make([]bool, n), workIdx: func() []int {
+			w := make([]int, n)
+			for i := range w {
+				w[i] = -1
+			}
+			return w
+		}(), soft: map[int]bool{}, run: &Run{Resp: make([]string, n)}}
 	defer sys.Close()
 	defer r.drain()
 	for k := 0; ; k++ {
 		en := r.enabled()
+		if len(en) == 0 && len(r.soft) > 0 {
+			// everyone else is done or parked nowhere: the waiting goroutines must come through now
+			ev, ok := r.next(r.tmo)
+			if !ok {
+				break
+			}
+			r.handle(ev)
+			continue
+		}
 		if len(en) == 0 {
 			break
 		}
@@ -272,7 +427,7 @@ func RunOne(mk func(y func(point string)) System, n int, cls Classify, prefix []
 				}
 			}
 			if !ok {
-				r.run.Stalled = fmt.Sprintf("schedule names goroutine %d at step %d but it cannot move (enabled %v)", c, k, en)
+				r.run.Infeasible = true // timing made this prefix unreplayable; not a statement about the code
 				break
 			}
 		}
@@ -282,7 +437,7 @@ func RunOne(mk func(y func(point string)) System, n int, cls Classify, prefix []
 			break
 		}
 	}
-	if r.run.Stalled == "" {
+	if r.run.Stalled == "" && !r.run.Infeasible {
 		for i := 0; i < n; i++ {
 			if r.st[i] != stDone {
 				r.run.Stalled = fmt.Sprintf("goroutine %d never finished (deadlock)", i)
@@ -291,14 +446,17 @@ func RunOne(mk func(y func(point string)) System, n int, cls Classify, prefix []
 			}
 		}
 	}
+	if os.Getenv("VERIF_CONC_DEBUG") != "" && (r.run.Stalled != "" || time.Since(t0) > time.Second) {
+		fmt.Fprintf(os.Stderr, "conc run %v took %v stalled=%q lines=%v\n", r.run.Chosen, time.Since(t0), r.run.Stalled, r.run.Lines)
+	}
 	return r.run
 }
 
 // Explore enumerates every interleaving depth-first (bounded by maxRuns); visit returns false to stop.
-func Explore(mk func(y func(point string)) System, n int, cls Classify, maxRuns int, visit func(*Run) bool) (runs int, complete bool) {
+func Explore(mk func(y func(point string)) System, o Opts, maxRuns int, visit func(*Run) bool) (runs int, complete bool) {
 	var prefix []int
 	for runs < maxRuns {
-		res := RunOne(mk, n, cls, prefix)
+		res := RunOne(mk, o, prefix)
 		runs++
 		if !visit(res) {
 			return runs, false
